@@ -23,7 +23,7 @@ PROPS = {
         'not_decided': 'the alpha/beta dualisation and its expectations',
     },
     'C04': {
-        'rules': ['R25', 'R07', 'R27', 'R32'],
+        'rules': ['R25', 'R07', 'R27', 'R32', 'R05'],
         'decided': 'expectation marker and event partition survive every shape-preserving '
                    'operation; expectation blocks of mix_support keep every cone list',
         'not_decided': 'everything numeric',
@@ -46,13 +46,13 @@ PROPS = {
                        'recursion, brute-force agreement (numeric)',
     },
     'C08': {
-        'rules': ['R14', 'R07', 'R35'],
+        'rules': ['R14', 'R07', 'R35', 'R36'],
         'decided': 'complete case analysis of the LP dual over the finite orderings of '
                    '(lb, ub, 0, +-inf); bound-row sign table; index searches in the dual builders run on sorted sequences',
         'not_decided': 'SOC/exp/LMI dual blocks, strong duality',
     },
     'C09': {
-        'rules': ['R01', 'R02', 'R03', 'R04', 'R08', 'R15', 'R23'],
+        'rules': ['R01', 'R02', 'R03', 'R04', 'R08', 'R15', 'R23', 'R38'],
         'decided': 'no container survives a reset; every declaration mutator invalidates every '
                    'cache that read it; expression constructors do not write their arguments; '
                    'cached formulas are not written by consumers; derived constraints keep their '
@@ -86,14 +86,14 @@ PROPS = {
         'not_decided': 'partition refinement arithmetic, masks -> variable indices',
     },
     'C14': {
-        'rules': ['R26', 'R17', 'R34'],
+        'rules': ['R26', 'R17', 'R34', 'R19'],
         'decided': 'row/label agreement in lp do_math; dual() applies the model sign; y carries '
                    'pi/upi/lpi for every dual-capable interface; a bound object keeps the order of the '
                    'indices it was declared with',
         'not_decided': 'each solver\'s sign convention, complementary slackness',
     },
     'C15': {
-        'rules': ['R12', 'R13', 'R08', 'R28', 'R34', 'R29'],
+        'rules': ['R12', 'R13', 'R08', 'R28', 'R34', 'R29', 'R14'],
         'decided': '>= is the mirror of <=; reflected operators; equality == two inequalities '
                    'including the attached set; bounds intersect in any order; the values of a bound '
                    'are broadcast, never recycled',
@@ -113,7 +113,7 @@ PROPS = {
         'not_decided': 'operator paths outside the sink table',
     },
     'C18': {
-        'rules': ['R22', 'R04', 'R07'],
+        'rules': ['R22', 'R04', 'R07', 'R38'],
         'decided': 'to_socp derives each field from the same field by prefix-preserving '
                    'operations, passes lmi through, does not write self; the head of every added cone '
                    'gets lower bound 0',
